@@ -114,33 +114,39 @@ class InjectSampler(Sampler):
         nr = self._config.realizations.weights.size
         npert = self._config.gradient.number_of_perturbations
         mask = np.ones(nv, dtype=bool) if self._mask is None else np.asarray(self._mask)
-        cols = np.where(mask)[0]
-        design = self._opts.get("design", "hash")
-        amp = float(self._opts.get("amp", 1.0))
-        sseed = self._opts.get("sseed", 0)
         call = self._calls
         self._calls += 1
-        out = np.zeros((nr, npert, nv))
-        shared = bool(self._sc.shared)
-        for r in range(nr):
-            rk = 0 if shared else r
-            for p in range(npert):
-                for ci, v in enumerate(cols):
-                    if design == "identity":
-                        val = amp if (p % max(len(cols), 1)) == ci else 0.0
-                    elif design == "pm":
-                        sgn = 1.0 if (p // max(len(cols), 1)) % 2 == 0 else -1.0
-                        val = sgn * amp if (p % max(len(cols), 1)) == ci else 0.0
-                    elif design == "rankdef":
-                        # every perturbation moves along the same direction
-                        val = amp * (1.0 + 0.5 * p) * (1.0 if ci % 2 == 0 else -1.0)
-                    elif design == "table":
-                        tab = self._opts["table"]
-                        val = float(tab[call % len(tab)][rk % len(tab[0])][p % len(tab[0][0])][int(v) % len(tab[0][0][0])])
-                    else:
-                        val = amp * round(hfloat(-1.0, 1.0, sseed, self._index, call, rk, p, int(v)), 4)
-                    out[r, p, v] = val
-        return out
+        return inject_samples(self._opts, bool(self._sc.shared), self._index, call, nr, npert, nv, np.where(mask)[0])
+
+
+def inject_samples(opts: dict, shared: bool, index: int, call: int, nr: int, npert: int, nv: int, cols) -> np.ndarray:
+    """Pure function giving the samples of the inject sampler (also used by oracles)."""
+    design = opts.get("design", "hash")
+    amp = float(opts.get("amp", 1.0))
+    sseed = opts.get("sseed", 0)
+    out = np.zeros((nr, npert, nv))
+    ncols = max(len(cols), 1)
+    for r in range(nr):
+        rk = 0 if shared else r
+        for p in range(npert):
+            for ci, v in enumerate(cols):
+                if design == "identity":
+                    val = amp if (p % ncols) == ci else 0.0
+                elif design == "pm":
+                    sgn = 1.0 if (p // ncols) % 2 == 0 else -1.0
+                    val = sgn * amp if (p % ncols) == ci else 0.0
+                elif design == "rankdef":
+                    val = amp * (1.0 + 0.5 * p) * (1.0 if ci % 2 == 0 else -1.0)
+                elif design == "table":
+                    tab = opts["table"]
+                    t1 = tab[call % len(tab)]
+                    t2 = t1[rk % len(t1)]
+                    t3 = t2[p % len(t2)]
+                    val = float(t3[int(v) % len(t3)])
+                else:
+                    val = amp * round(hfloat(-1.0, 1.0, sseed, index, call, rk, p, int(v)), 4)
+                out[r, p, v] = val
+    return out
 
 
 class InjectSamplerPlugin(SamplerPlugin):
